@@ -179,3 +179,11 @@ def bits_once(O):
                  "the run's sequence")
 def one_generator(O):
     dri.one_context(O, rep())
+
+
+@obligation("C17/constructor-draws-nothing", profiles=("dev",),
+            desc="try_new runs the test-data constructor, the default entries, its one driver call, build_output_indices and "
+                 "new_with_outputs - nothing that evaluates an expression: no draw is consumed before the program starts")
+def constructor_draws_nothing(O):
+    from . import C02
+    C02.try_new(dri.WithRep(O, rep()))
